@@ -211,6 +211,53 @@ def r08_w(ctx):
     witness_obligations(ctx, "R08.W", [('W5RawNumberNoCtor', 'RawNumber has no public constructor from arbitrary text')])
 
 
+def r08_5(ctx):
+    """the serializer hands each number to the formatter's writer of the same type: serialize_f64 -> write_f64,
+    serialize_u32 -> write_u32 ...; an integer may go to a wider integer writer of the same signedness, a float to no
+    other writer (the shortest text of an f32 identifies it among f32 values only: 0.10000000149011612_f64 written by
+    write_f32 reads back as a different f64)"""
+    prog = ctx.prog()
+    n = 0
+    rank = {"8": 1, "16": 2, "32": 3, "64": 4, "128": 5}
+    for f in prog.fns.values():
+        if f.crate != "sonic_rs" or not (f.self_adt or "").endswith(("serde::ser::Serializer", "serde::ser::MapKeySerializer")) or not (f.trait or "").endswith("ser::Serializer"):
+            continue
+        if not f.name.startswith("serialize_") or f.name.split("_", 1)[1] not in [w.split("_", 1)[1] for w in INT_W + FLT_W]:
+            continue
+        ty = f.name.split("_", 1)[1]
+        ws = [(b, t) for g in prog.with_closures(f) for b, t in g.calls() if t["callee"].rsplit("::", 1)[-1] in INT_W + FLT_W]
+        if not ws:
+            continue
+        n += 1
+        bad = []
+        for b, t in ws:
+            wty = t["callee"].rsplit("::", 1)[-1].split("_", 1)[1]
+            if wty == ty:
+                continue
+            widen = ty[0] == wty[0] and ty[0] in "iu" and rank[wty[1:]] >= rank[ty[1:]]
+            if widen:
+                continue
+            # an integer may also take a narrower / other-signed writer on a path where it provably fits (interval analysis
+            # of the guards in front of the cast)
+            fits = False
+            if ty[0] in "iu" and wty[0] in "iu" and t["callee"] and b in f.reach and f.blocks[b]["term"] is t:
+                from ..intervals import Intervals, ty_range
+                a = op_local(t["args"][-1])
+                d = f.single_def(a) if a is not None else None
+                if d and d[0] == "stmt" and d[3]["rv"]["k"] == "cast" and d[3]["rv"].get("ck") == "IntToInt":
+                    iv = Intervals(f)
+                    v = iv.operand_at_stmt(d[1], d[2], d[3]["rv"]["op"])
+                    r = ty_range("i" + wty[1:] if wty[0] == "i" else "u" + wty[1:])
+                    fits = bool(v and r and r[0] <= v[0] and v[1] <= r[1])
+            if not fits:
+                bad.append((wty, t["ln"]))
+        owner = (f.self_adt or "").rsplit("::", 1)[-1]
+        ctx.ob("R08.5", f"{owner}::{f.name}", not bad, f.loc(bad[0][1] if bad else None),
+               f"{f.name} writes through write_{ty}" + (" (or a wider writer of the same signedness)" if ty[0] in "iu" else "") if not bad else
+               f"{f.name} hands its value to write_{bad[0][0]}: the text is the shortest one for another type and does not read back as the same {ty}")
+    ctx.floor("R08.5", "number methods of the text serializers that call a number writer", n, 12)
+
+
 def r08_s(ctx):
     """a raw number holds a grammatically valid number: one-fraction discipline of the validating number skipper (shared with C02)"""
     from . import c02
@@ -220,4 +267,4 @@ def r08_s(ctx):
     ctx.include(c07.r07_10, 'R08.S')
 
 
-RULES = [("R08.1", r08_1), ("R08.2", r08_2), ("R08.3", r08_3), ("R08.4", r08_4), ("R08.W", r08_w), ("R08.S", r08_s)]
+RULES = [("R08.1", r08_1), ("R08.2", r08_2), ("R08.3", r08_3), ("R08.4", r08_4), ("R08.5", r08_5), ("R08.W", r08_w), ("R08.S", r08_s)]
